@@ -75,6 +75,30 @@ def gen(rng, cid, plugin):
         # make the growth phase decisive and put observed growth ratios on both sides of a fractional threshold
         args.update({"size_threshold": "100", "growing_size_percentile": rng.choice(["0", "20"]),
                      "min_growth_ratio": rng.choice(["1.5", "2.5", "2.75", "0.5", "3.1"])})
+    boundary = growth_focus and rng.random() < 0.5
+    if boundary:
+        # put one sibling's usage / moving average EXACTLY on a non-dyadic configured ratio at tick 1:
+        # avg1 = 3/4*(cur0/4) + cur1/4, so cur1/avg1 == r  <=>  cur1 = (3r/16)/(1 - r/4) * cur0
+        from fractions import Fraction as F_
+        r = rng.choice(["1.1", "1.2", "1.6", "1.3", "2.2"])
+        args["min_growth_ratio"] = r
+        rr = F_(r)
+        k = (3 * rr / 16) / (1 - rr / 4)
+        base = 16 * k.denominator * rng.randint(1000, 100000)
+        tgt = "wl/" + names[0]
+        cgs[tgt]["files"]["memory.current"] = "%d\n" % base
+        cgs[tgt]["files"]["memory.low"] = "0\n"
+        cgs[tgt]["files"]["memory.min"] = "0\n"
+        exact_cur1 = int(k * base)
+        args["growing_size_percentile"] = "0"
+        # every other sibling is bigger but shrinking (growth ~0.47), so the cgroup sitting exactly on the
+        # ratio is the only grower: documented first choice = it; "not a grower" => the biggest sibling
+        other_cur1 = {}
+        for j, nm in enumerate(names[1:]):
+            other_cur1["wl/" + nm] = exact_cur1 * (2 + j)
+            cgs["wl/" + nm]["files"]["memory.current"] = "%d\n" % (10 * exact_cur1 * (2 + j))
+            cgs["wl/" + nm]["files"]["memory.low"] = "0\n"
+            cgs["wl/" + nm]["files"]["memory.min"] = "0\n"
     nticks = rng.choice([2, 3])
     ticks = [{"step_ns": 10**9, "ops": []}]
     for t in range(1, nticks):
@@ -87,7 +111,10 @@ def gen(rng, cid, plugin):
             ops.append({"op": "write", "cg": r, "file": "io.stat", "text": KG.iostat_text(rng, 1 + t)})
             cur = CG.parse_scalar(cgs[r]["files"]["memory.current"])
             f = rng.choice([0, 0.5, 1, 1, 1.2, 1.4, 1.6, 2, 3])
-            ops.append({"op": "write", "cg": r, "file": "memory.current", "text": "%d\n" % int(cur * f)})
+            newcur = int(cur * f)
+            if boundary and t == 1:
+                newcur = exact_cur1 if r == tgt else other_cur1[r]
+            ops.append({"op": "write", "cg": r, "file": "memory.current", "text": "%d\n" % newcur})
         ticks.append({"step_ns": 10**9, "ops": ops})
     # nobody dies: every kill fails, so the same sibling set is ranked on every tick and fallback order is visible
     scn = KG.base_scn(cid, cgs, KG.kill_config(plugin, args), ticks=ticks, proc=proc, kill={"default": "ESRCH"})
